@@ -685,3 +685,8 @@ NOT_PROVED = [x for x in _np if x is not None]
 PROOF_MODULES = PROOF_MODULES + ['Compute.Props.C07Quad']
 REQUIRED_THEOREMS = REQUIRED_THEOREMS + ['Cv.C07Q.quad5_poly_error', 'Cv.C07Q.quad5_poly_error_coeffs', 'Cv.C07Q.quad5_poly_exact_of_odd', 'Cv.C07Q.quad5_horner_error', 'Cv.C07Q.Q_monomial_residual']
 NOT_PROVED = [x for x in NOT_PROVED if not any(k in str(x) for k in ('quad5 exactness lifted',))]
+
+# --- source tie (translator tools/rs2lean.py: the straight-line functions of this property are regenerated from /repo/src on every run
+# into lean/Compute/Generated/SrcC07.lean and proved equal to the hand model in Props/SrcTieC07.lean)
+from . import srctie
+srctie.wire(globals(), 'C07')
